@@ -807,6 +807,10 @@ func judgeC16Mut(c Case) *h.Verdict {
 			if !try([]byte{ref[0], 0}, "error", "zero-length-primitive") {
 				return v
 			}
+			// ... also when further octets follow the empty element
+			if !try([]byte{ref[0], 0, 0}, "error", "zero-length-primitive") || !try([]byte{ref[0], 0, 1, 0xff}, "error", "zero-length-primitive") {
+				return v
+			}
 		}
 		if u := universalOf(c.Type); u >= 0 {
 			for _, wrong := range []byte{1, 2, 3, 4, 5, 10, 12, 22, 0x30} {
@@ -914,4 +918,38 @@ func TestSelfReferenceEncoder(t *testing.T) {
 	if len(regNames) < 150 {
 		t.Errorf("registry has only %d types", len(regNames))
 	}
+}
+
+// ------------------------------------------------------- native fuzz target
+// Coverage-guided search behind the enumerations (thorough tier only): the
+// bytes are decoded into a target chosen by the first argument; the oracle is
+// the one of C16 (no panic, termination, empty input rejected, nothing read
+// beyond the input).
+var fuzzTargets = targetSpecs()
+var fuzzParams = []string{"", "explicit,choice", "tagNum:3", "set", "utf8"}
+
+func FuzzUnmarshal(f *testing.F) {
+	for _, hexs := range []string{"", "1f", "0284ffffffff", "3080", "0100", "020100", "0101ff", "030200ff", "0403010203", "0500", "0a0105",
+		"3003800140", "3009020101020102020103", "a203800140", "9f81000100", "bf8148038001c8", "30820001", "0482ffff", "7f", "ff7f00", "308180"} {
+		b, _ := hex.DecodeString(hexs)
+		for i := 0; i < len(fuzzTargets); i += 17 {
+			f.Add(uint16(i), uint8(0), b)
+		}
+		f.Add(uint16(0), uint8(1), b)
+	}
+	f.Fuzz(func(t *testing.T, ti uint16, pi uint8, data []byte) {
+		spec := fuzzTargets[int(ti)%len(fuzzTargets)]
+		params := fuzzParams[int(pi)%len(fuzzParams)]
+		if len(data) > 4096 {
+			data = data[:4096]
+		}
+		typ := spec.Build()
+		err, p, val, st := decodeOne(typ, params, data)
+		if p {
+			t.Fatalf("VIOLATION sig=panic/%s/%s unmarshal of %x into %s (params %q) panicked: %v\n%s", h.PanicClass(val), h.PanicFrame(st), data, typ, params, val, st)
+		}
+		if len(data) == 0 && err == nil {
+			t.Fatalf("VIOLATION sig=no-error/empty unmarshal of empty input into %s returned no error", typ)
+		}
+	})
 }
